@@ -256,6 +256,36 @@ impl E {
         }
     }
 
+    /// Rebuilds the expression with every column reference replaced by `f(table position, column)`.
+    pub fn map_cols(&self, f: &dyn Fn(u8, u8) -> E) -> E {
+        let b = |e: &E| Box::new(e.map_cols(f));
+        match self {
+            E::Col(t, c) => f(*t, *c),
+            E::Lit(v) => E::Lit(v.clone()),
+            E::Cmp(o, x, y) => E::Cmp(*o, b(x), b(y)),
+            E::And(x, y) => E::And(b(x), b(y)),
+            E::Or(x, y) => E::Or(b(x), b(y)),
+            E::Not(x) => E::Not(b(x)),
+            E::IsNull(x, n) => E::IsNull(b(x), *n),
+            E::Between(x, lo, hi, n) => E::Between(b(x), b(lo), b(hi), *n),
+            E::In(x, l, n) => E::In(b(x), l.iter().map(|e| e.map_cols(f)).collect(), *n),
+            E::Like(x, p, n) => E::Like(b(x), p.clone(), *n),
+            E::Arith(o, x, y) => E::Arith(*o, b(x), b(y)),
+            E::Neg(x) => E::Neg(b(x)),
+            E::Concat(x, y) => E::Concat(b(x), b(y)),
+        }
+    }
+
+    /// The same predicate with the operands of every AND / OR exchanged.
+    pub fn commuted(&self) -> E {
+        match self {
+            E::And(x, y) => E::And(Box::new(y.commuted()), Box::new(x.commuted())),
+            E::Or(x, y) => E::Or(Box::new(y.commuted()), Box::new(x.commuted())),
+            E::Not(x) => E::Not(Box::new(x.commuted())),
+            other => other.clone(),
+        }
+    }
+
     pub fn depth(&self) -> usize {
         match self {
             E::Col(..) | E::Lit(..) => 1,
@@ -420,6 +450,34 @@ pub fn sorted_on(rows: &[Vec<Val>], order: &[(usize, bool)]) -> bool {
 }
 
 impl Query {
+    /// True if some expression of the query is implementation-defined (overflow, division by zero, …) on some
+    /// row or row combination of its tables — whether or not the textbook evaluation order would reach it.
+    /// An engine is free to evaluate predicates earlier or later than the model does.
+    pub fn undefined_somewhere(&self, tables: &[TableData]) -> bool {
+        let bad = |e: &E, ctx: &[&[Val]]| e.eval(ctx).is_err();
+        match self {
+            Query::Select { table, proj, pred, .. } => tables[*table as usize].rows.iter().any(|r| {
+                let ctx: [&[Val]; 1] = [r.as_slice()];
+                pred.iter().chain(proj.iter()).any(|e| bad(e, &ctx))
+            }),
+            Query::Agg { table, pred, .. } => tables[*table as usize].rows.iter().any(|r| {
+                let ctx: [&[Val]; 1] = [r.as_slice()];
+                pred.iter().any(|e| bad(e, &ctx))
+            }),
+            Query::Join { left, right, on, pred, .. } => {
+                let (l, r) = (&tables[*left as usize], &tables[*right as usize]);
+                let nl: Vec<Val> = vec![Val::Null; l.cols.len()];
+                let nr: Vec<Val> = vec![Val::Null; r.cols.len()];
+                let ls: Vec<&[Val]> = l.rows.iter().map(|x| x.as_slice()).chain(std::iter::once(nl.as_slice())).collect();
+                let rs: Vec<&[Val]> = r.rows.iter().map(|x| x.as_slice()).chain(std::iter::once(nr.as_slice())).collect();
+                ls.iter().any(|a| rs.iter().any(|b| {
+                    let ctx: [&[Val]; 2] = [a, b];
+                    on.iter().chain(pred.iter()).any(|e| bad(e, &ctx))
+                }))
+            }
+        }
+    }
+
     pub fn eval(&self, tables: &[TableData]) -> Result<QOut, EvalErr> {
         match self {
             Query::Select { table, proj, distinct, pred, order, limit } => {
@@ -532,18 +590,28 @@ impl Query {
                         o.push(match f {
                             AggFn::CountStar => Val::Int(rows.len() as i64),
                             AggFn::Count => Val::Int(vals.len() as i64),
-                            AggFn::Sum => {
+                            AggFn::Sum | AggFn::Avg => {
                                 if vals.is_empty() {
                                     Val::Null
                                 } else {
-                                    Val::Dbl(vals.iter().map(|v| v.as_f64().unwrap_or(0.0)).sum())
-                                }
-                            }
-                            AggFn::Avg => {
-                                if vals.is_empty() {
-                                    Val::Null
-                                } else {
-                                    Val::Dbl(vals.iter().map(|v| v.as_f64().unwrap_or(0.0)).sum::<f64>() / vals.len() as f64)
+                                    // integers are summed exactly; a sum that leaves 64 bits or a float sum whose
+                                    // value depends on the order of addition is implementation-defined
+                                    let sum = if vals.iter().all(|v| matches!(v, Val::Int(_))) {
+                                        let s: i128 = vals.iter().map(|v| if let Val::Int(i) = v { *i as i128 } else { 0 }).sum();
+                                        if s.abs() >= (1i128 << 53) {
+                                            return Err(EvalErr::Undefined("integer sum beyond 2^53".into()));
+                                        }
+                                        s as f64
+                                    } else {
+                                        let fs: Vec<f64> = vals.iter().map(|v| v.as_f64().unwrap_or(0.0)).collect();
+                                        let fwd: f64 = fs.iter().sum();
+                                        let bwd: f64 = fs.iter().rev().sum();
+                                        if fwd != bwd {
+                                            return Err(EvalErr::Undefined("float sum depends on the order of addition".into()));
+                                        }
+                                        fwd
+                                    };
+                                    if matches!(f, AggFn::Sum) { Val::Dbl(sum) } else { Val::Dbl(sum / vals.len() as f64) }
                                 }
                             }
                             AggFn::Min => vals.iter().fold(None::<&Val>, |m, v| match m {
